@@ -31,7 +31,9 @@ PARTIAL = {
 RULE = ("one operation list (normalised sessions: schema changes, deletions, additions) executed under 3-5 histories: "
         "sessions cut into extra commits, merge kinds re-drawn among NO_MERGE/MERGE_SMALL/OPTIMIZE, no-op commits "
         "inserted, codec block size / storage / packing re-drawn; 40% of the worlds also through SerialMpWriter/MpWriter "
-        "(merged sub-segments) as one more history; every 8th world = the same documents committed as 1, 2, 3 segments, "
+        "(merged sub-segments) as one more history; every 8th world = group stream (many start_group/end_group blocks, nested "
+        "to depth 2, always also through SerialMpWriter and MpWriter; every group of every level must be adjacent and in "
+        "order in every dump); every 8th world = the same documents committed as 1, 2, 3 segments, "
         "then remove_field + optimize, then the name added again; schemas include a pure COLUMN field and a dynamic "
         "(glob) field that is indexed, not stored, with lengths, vector and column; non-trivial = at least two histories end in a "
         "different number of segments or different doc numbering; distinct = distinct world")
@@ -91,11 +93,19 @@ def _base_world(seed_tuple):
             if len(adds) - 1 <= k:
                 break
         return w, variants
+    # every 8th world = group stream: many groups, nested to depth 2 (a group opened while the enclosing one is still
+    # open, documents of the outer group after the inner one closed), always through SerialMpWriter and MpWriter
+    grp = i % 8 == 5
     many = rng.random() < 0.4
-    w = io.gen_world(rng, disciplined=True, schema_changes=rng.random() < 0.4, raw_docnums=False, normalized=True,
-                     groups=rng.random() < 0.5, nsessions=rng.choice([6, 8, 10, 12]) if many else None,
-                     maxops=rng.choice([2, 3]) if many else None)
-    nvar = rng.choice([2, 3, 4])
+    if grp:
+        w = io.gen_world(rng, disciplined=True, schema_changes=rng.random() < 0.3, raw_docnums=False, normalized=True,
+                         groups=True, nested=True, group_p=0.4, malformed=False,
+                         nsessions=rng.choice([2, 3, 4, 6]), maxops=rng.choice([3, 4, 6]))
+    else:
+        w = io.gen_world(rng, disciplined=True, schema_changes=rng.random() < 0.4, raw_docnums=False, normalized=True,
+                         groups=rng.random() < 0.5, nsessions=rng.choice([6, 8, 10, 12]) if many else None,
+                         maxops=rng.choice([2, 3]) if many else None)
+    nvar = rng.choice([1, 2]) if grp else rng.choice([2, 3, 4])
     variants = []
     for v in range(nvar + 1):
         if v == 0:
@@ -111,7 +121,12 @@ def _base_world(seed_tuple):
         cfg["limitmb"] = rng.choice([128, 128, 0.0004, 0.002, 0.01])
         variants.append((vw, marks, cfg))
     r = rng.random()
-    if r < 0.4 and not any(o[0] == "addbad" for ops, _ in w["sessions"] for o in ops):
+    if grp:
+        for fe in ("serialmp", "mp"):
+            cfg = dict(io.default_config(), frontend=fe, procs=rng.choice([2, 3]), batchsize=rng.choice([1, 2, 3]),
+                       multisegment=False, blocklimit=rng.choice([2, 128]))
+            variants.append((w, list(range(len(w["sessions"]))), cfg))
+    elif r < 0.4 and not any(o[0] == "addbad" for ops, _ in w["sessions"] for o in ops):
         # (a document that raises kills an MpWriter sub-process: C18's mp:sub-writer-failure scenario)
         # "forall writer front-ends": the reference history through SerialMpWriter / MpWriter (merged sub-segments)
         cfg = dict(io.default_config(), frontend="serialmp" if r < 0.3 else "mp", procs=rng.choice([2, 3]),
